@@ -43,6 +43,8 @@ func (e *Engine) runStatic(name, prop string) ([]staticResult, []string) {
 		return e.todoOrder(prop)
 	case "enum-roundtrip":
 		return e.enumRoundtrip(prop)
+	case "keeps-frames":
+		return e.keepsFrames(prop)
 	}
 	return nil, []string{"unknown static check " + name}
 }
@@ -1256,5 +1258,182 @@ func (e *Engine) todoOrder(prop string) ([]staticResult, []string) {
 		r2.Status, r2.Detail = "fail", strings.Join(p2, "; ")
 	}
 	res = append(res, r2)
+	return res, nil
+}
+
+
+// keepsFrames discharges the `keeps T.F, mapof(T.F)` clauses of the units of a property: a unit that makes
+// calls with unknown effects (`assigns anything` callees, callees without a contract) may rely on the kept
+// memory surviving those calls only if nothing reachable from any of its callees -- statically, through
+// closures, and through every /repo implementation of a dynamically called method -- stores to the field T.F
+// of a shared object (resp. updates a shared map of that field's type). One obligation per unit and clause.
+func (e *Engine) keepsFrames(prop string) ([]staticResult, []string) {
+	var res []staticResult
+	var fns []*ssa.Function
+	for fn, con := range e.cons {
+		if len(con.Keeps) > 0 && hasProp(con.Props, prop) {
+			fns = append(fns, fn)
+		}
+	}
+	sort.Slice(fns, func(i, j int) bool { return fns[i].String() < fns[j].String() })
+	type reachInfo struct {
+		fns     []*ssa.Function
+		unknown []string
+	}
+	reachCache := map[*ssa.Function]*reachInfo{}
+	reach := func(root *ssa.Function) *reachInfo {
+		if ri, ok := reachCache[root]; ok {
+			return ri
+		}
+		ri := &reachInfo{}
+		seen := map[*ssa.Function]bool{}
+		var work []*ssa.Function
+		push := func(f *ssa.Function) {
+			if f != nil && !seen[f] {
+				seen[f] = true
+				work = append(work, f)
+			}
+		}
+		push(root)
+		for len(work) > 0 {
+			fn := work[0]
+			work = work[1:]
+			if !fnInRepo(fn) || fn.Blocks == nil {
+				continue // library code cannot name /repo's unexported fields or maps (no reflection in the subset)
+			}
+			ri.fns = append(ri.fns, fn)
+			for _, c := range e.callees(fn) {
+				push(c)
+			}
+			for _, b := range fn.Blocks {
+				for _, ins := range b.Instrs {
+					ci, ok := ins.(ssa.CallInstruction)
+					if !ok || ci.Common().IsInvoke() {
+						continue
+					}
+					switch ci.Common().Value.(type) {
+					case *ssa.Function, *ssa.MakeClosure, *ssa.Builtin:
+					default:
+						ri.unknown = append(ri.unknown, fmt.Sprintf("%s: call through a function value in %s", posOf(e, ins.Pos()), fn.Name()))
+					}
+				}
+			}
+		}
+		reachCache[root] = ri
+		return ri
+	}
+	for _, unit := range fns {
+		con := e.cons[unit]
+		uname := strings.Replace(unit.String(), modPath+"/", "", -1)
+		// everything reachable from the callees of the unit (the unit's own stores are what it is verified for)
+		var all []*ssa.Function
+		var unknown []string
+		seen := map[*ssa.Function]bool{}
+		for _, c := range e.callees(unit) {
+			ri := reach(c)
+			for _, f := range ri.fns {
+				if !seen[f] {
+					seen[f] = true
+					all = append(all, f)
+				}
+			}
+			unknown = append(unknown, ri.unknown...)
+		}
+		for _, g := range con.Keeps {
+			if sf := e.findSpec(con.Pkg, g); sf != nil && sf.Ghost {
+				continue
+			}
+			r := staticResult{Name: "keeps:" + uname + ":" + g, Func: unit.String(), Kind: "keeps", Pos: posOf(e, unit.Pos()), Status: "unsat"}
+			kind, d := "field", g
+			if strings.HasPrefix(g, "mapof(") {
+				kind, d = "map", g[6:len(g)-1]
+			} else if strings.HasPrefix(g, "elems(") {
+				kind, d = "elems", g[6:len(g)-1]
+			}
+			i := strings.LastIndex(d, ".")
+			var stT types.Type
+			var err error
+			if i > 0 {
+				stT, err = e.resolveType(con.Pkg, d[:i])
+			}
+			if i <= 0 || err != nil {
+				r.Status, r.Detail = "fail", "cannot resolve "+g
+				res = append(res, r)
+				continue
+			}
+			st, _ := stT.Underlying().(*types.Struct)
+			fidx := -1
+			for k := 0; st != nil && k < st.NumFields(); k++ {
+				if st.Field(k).Name() == d[i+1:] {
+					fidx = k
+				}
+			}
+			if fidx < 0 || kind == "elems" {
+				r.Status, r.Detail = "fail", "unsupported designator "+g
+				res = append(res, r)
+				continue
+			}
+			var problems []string
+			for _, fn := range all {
+				for _, b := range fn.Blocks {
+					for _, ins := range b.Instrs {
+						switch x := ins.(type) {
+						case *ssa.Store:
+							fa, ok := x.Addr.(*ssa.FieldAddr)
+							if kind != "field" || !ok || fa.Field != fidx {
+								continue
+							}
+							if !types.Identical(fa.X.Type().Underlying().(*types.Pointer).Elem(), stT) || freshOrigin(fa.X, map[ssa.Value]bool{}) {
+								continue
+							}
+							problems = append(problems, fmt.Sprintf("%s: %s stores to %s of a shared object", posOf(e, x.Pos()), fn.Name(), d))
+						case *ssa.MapUpdate:
+							if kind != "map" || !types.Identical(x.Map.Type(), st.Field(fidx).Type()) || freshOrigin(x.Map, map[ssa.Value]bool{}) {
+								continue
+							}
+							problems = append(problems, fmt.Sprintf("%s: %s updates a shared %s", posOf(e, x.Pos()), fn.Name(), x.Map.Type()))
+						case ssa.CallInstruction:
+							if bi, ok := x.Common().Value.(*ssa.Builtin); ok && kind == "map" && (bi.Name() == "delete" || bi.Name() == "clear") && len(x.Common().Args) > 0 && types.Identical(x.Common().Args[0].Type(), st.Field(fidx).Type()) {
+								problems = append(problems, fmt.Sprintf("%s: %s deletes from a shared %s", posOf(e, x.Pos()), fn.Name(), x.Common().Args[0].Type()))
+							}
+						}
+					}
+				}
+			}
+			if kind == "field" {
+				// a pointer to the field handed out (&x.F) could be written through elsewhere
+				for _, fn := range all {
+					for _, b := range fn.Blocks {
+						for _, ins := range b.Instrs {
+							fa, ok := ins.(*ssa.FieldAddr)
+							if !ok || fa.Field != fidx || !types.Identical(fa.X.Type().Underlying().(*types.Pointer).Elem(), stT) || freshOrigin(fa.X, map[ssa.Value]bool{}) {
+								continue
+							}
+							for _, ref := range *fa.Referrers() {
+								switch u := ref.(type) {
+								case *ssa.UnOp, *ssa.FieldAddr, *ssa.IndexAddr, *ssa.DebugRef:
+								case *ssa.Store:
+									if u.Addr != fa {
+										problems = append(problems, fmt.Sprintf("%s: %s stores the address of %s", posOf(e, u.Pos()), fn.Name(), d))
+									}
+								default:
+									problems = append(problems, fmt.Sprintf("%s: %s lets the address of %s escape", posOf(e, ins.Pos()), fn.Name(), d))
+								}
+							}
+						}
+					}
+				}
+			}
+			problems = append(problems, unknown...)
+			r.Detail = fmt.Sprintf("none of the %d /repo functions reachable from the calls made by %s writes %s", len(all), uname, g)
+			if len(problems) > 0 {
+				if len(problems) > 5 {
+					problems = append(problems[:5], fmt.Sprintf("... %d more", len(problems)-5))
+				}
+				r.Status, r.Detail = "fail", strings.Join(problems, "; ")
+			}
+			res = append(res, r)
+		}
+	}
 	return res, nil
 }
